@@ -990,7 +990,9 @@ func (e *Exec) fresh(tag, kind string, w int) *Term {
 		return t
 	}
 	e.ndCount[tag]++
-	name := fmt.Sprintf("%s!%d", sanitize(tag), e.ndCount[tag])
+	// the width is part of the name: the same tag may be used with different types on different paths, and the
+	// solver keeps declarations across paths
+	name := fmt.Sprintf("%s!%d.w%d", sanitize(tag), e.ndCount[tag], w)
 	v := Var(name, w)
 	e.inputs = append(e.inputs, inputRec{Tag: tag, Kind: kind, t: v})
 	return v
